@@ -72,7 +72,9 @@ class _TabulationCutoff(object):
       cutoff = (nr-1)*dr      
     elif cutoff and dr:
       # Set nr
-      nr = (cutoff/dr) + 1
+      # The quotient of two decimal fractions is rarely exact (0.3/0.1 = 2.9999999999999996),
+      # round it before truncation so that a cutoff that is a whole multiple of dr keeps its last row.
+      nr = round(cutoff/dr, 8) + 1
       nr = int(nr)
     elif not dr is None:
       raise ConfigParserException("'{dr}' cannot be specified without either '{nr}' or '{cutoff}' in [Tabulation] section of potential definition.".format(**self._template_dict))
